@@ -77,4 +77,19 @@ package dtls
 //@ ensures candidates-once: ncalls("Conn.readTrafficCandidates") == 1
 //@ loop #1: cands: forall(0, len(candidates), func(i int) bool { return candidates[i] != nil && uint8(candidates[i].Epoch & 3) == record.Header.EpochLow })
 //@ loop #1: remote: remoteEpoch == retAs("Conn.readTrafficCandidates", 1, result2) && ncalls("Conn.readTrafficCandidates") == 1
+// Retained generations are really tried: the two wire epoch bits can name several retained generations (epoch e and
+// e+4); a failure to open under one candidate must not stop the search. Only the last call of a name is observable,
+// so the law is stated for the last candidate: if it is authorised and keyed, a record is only rejected after it was
+// tried (and failed); and whenever the record is rejected after a try, the error is the one of the last try.
+//@ define ELIG(g) (g.Epoch <= remoteEpoch && !isNil(g.Protection))
+//@ define LASTGEN() argAs("Conn.openCiphertextWithGeneration", 2, TG0())
+//@ ensures last-candidate-tried: result3 != nil && len(candidates) > 0 && ELIG(candidates[len(candidates)-1])
+//@    ==> called("Conn.openCiphertextWithGeneration") && LASTGEN() == candidates[len(candidates)-1] && !isNil(retErr("Conn.openCiphertextWithGeneration", 2))
+//@ ensures not-tried-means-none-usable: result3 != nil && !called("Conn.openCiphertextWithGeneration") ==> forall(0, len(candidates), func(j int) bool { return !ELIG(candidates[j]) })
+//@ ensures rejected-with-last-error: result3 != nil && called("Conn.openCiphertextWithGeneration") ==> sameRef(result3, retErr("Conn.openCiphertextWithGeneration", 2))
+//@ ensures never-tries-unauthorised: called("Conn.openCiphertextWithGeneration") ==> LASTGEN().Epoch <= remoteEpoch
+//@ loop #1: tried-prev: idx > 0 && ELIG(candidates[idx-1]) ==> called("Conn.openCiphertextWithGeneration") && LASTGEN() == candidates[idx-1] && !isNil(retErr("Conn.openCiphertextWithGeneration", 2))
+//@ loop #1: not-tried-none-usable: !called("Conn.openCiphertextWithGeneration") ==> forall(0, idx, func(j int) bool { return !ELIG(candidates[j]) })
+//@ loop #1: all-failed: called("Conn.openCiphertextWithGeneration") ==> !isNil(retErr("Conn.openCiphertextWithGeneration", 2)) && sameRef(candidateErr, retErr("Conn.openCiphertextWithGeneration", 2)) && LASTGEN().Epoch <= remoteEpoch && eligible
+//@ loop #1: none-tried: !called("Conn.openCiphertextWithGeneration") ==> isNil(candidateErr)
 //@ end
